@@ -1,43 +1,218 @@
 package main
 
 import (
+	"crypto/sha1" //nolint:gosec
+	"encoding/hex"
+	"encoding/json"
 	"fmt"
 	"math/rand"
 	"os"
+	"os/exec"
 	"path/filepath"
+	"regexp"
 	"runtime"
+	"sort"
 	"strconv"
 	"strings"
 	"sync"
 	"time"
 
+	"github.com/pion/rtcp"
 	"github.com/pion/rtp"
 	"github.com/pion/webrtc/v4"
 	"github.com/pion/webrtc/v4/pkg/media"
 )
 
-// C40 — randomized concurrent programs against one PeerConnection while a serialized offer/answer
-// exchange runs; meant to be executed from the -race build (bin/check builds .build/wvh-race).
+// C40 — concurrent use of one PeerConnection and its children, executed from the -race build
+// (bin/check builds .build/wvh-race). Two kinds of op line:
 //
-//	conc <seed> <goroutines> <calls>   → ok | race | hang | err:<…>
-func raceLogSize() int64 {
+//	conc <seed> <goroutines> <calls>
+//	    a seeded random program: <goroutines> goroutines each make <calls> calls drawn from the
+//	    property's list while one goroutine runs three serialized offer/answer rounds.
+//	par <setup> <seed> <ng> <reps> <group>…
+//	    a fixture is brought to <setup> (fresh | offer | conn | conn2 | closing), then every <group>
+//	    (entry-point names of c40Ops joined by '+') is run in turn: <ng> goroutines (goroutine i runs
+//	    the i-th entry of the group, the extra ones repeat its non-signaling entries) are released by
+//	    one barrier and call their entry point <reps> times (destructive ones once).
+//
+// Output: ok | race <pairA~pairB>… | hang <group> | inconclusive <why> | err:<…>
+//	| crash <runtime message> | timeout
+// Every op line is executed in a process of its own (c40Spawn). The race keys are read from that
+// process's race-detector log, one key per distinct report: the innermost non-runtime function of each
+// of the two conflicting accesses, sorted.
+
+// ---------------------------------------------------------------------------------------------
+// race-detector log of this process
+
+func c40RaceLogPath() string {
 	p := os.Getenv("WVH_RACE_LOG")
+	if p == "" {
+		return ""
+	}
+
+	return p + "." + strconv.Itoa(os.Getpid())
+}
+
+func raceLogSize() int64 {
+	p := c40RaceLogPath()
 	if p == "" {
 		return 0
 	}
-	var n int64
-	ms, _ := filepath.Glob(p + "*")
-	for _, m := range ms {
-		if st, err := os.Stat(m); err == nil {
-			n += st.Size()
+	st, err := os.Stat(p)
+	if err != nil {
+		return 0
+	}
+
+	return st.Size()
+}
+
+var c40VersionSeg = regexp.MustCompile(`^v[0-9]+\.`)
+
+// c40ShortFunc turns "github.com/pion/webrtc/v4.(*PeerConnection).GetStats()" into
+// "webrtc.(*PeerConnection).GetStats".
+func c40ShortFunc(fn string) string {
+	fn = strings.TrimSuffix(fn, "()")
+	if i := strings.LastIndex(fn, "/"); i >= 0 {
+		last := fn[i+1:]
+		if c40VersionSeg.MatchString(last) { // …/webrtc/v4.(*X).M
+			prev := fn[:i]
+			if j := strings.LastIndex(prev, "/"); j >= 0 {
+				prev = prev[j+1:]
+			}
+			fn = prev + last[strings.Index(last, "."):]
+		} else {
+			fn = last
 		}
 	}
 
-	return n
+	return strings.ReplaceAll(fn, " ", "")
 }
 
+func c40RuntimeFrame(fn string) bool {
+	for _, p := range []string{"runtime.", "sync.", "sync/atomic.", "internal/", "reflect."} {
+		if strings.HasPrefix(fn, p) {
+			return true
+		}
+	}
+
+	return false
+}
+
+func c40AccessHeader(l string) bool {
+	l = strings.ToLower(l)
+	for _, p := range []string{"read at ", "write at ", "previous read at ", "previous write at ",
+		"atomic read at ", "atomic write at ", "previous atomic read at ", "previous atomic write at "} {
+		if strings.HasPrefix(l, p) {
+			return true
+		}
+	}
+
+	return false
+}
+
+// c40RacePairs extracts one key per DATA RACE report of text.
+func c40RacePairs(text string) []string {
+	set := map[string]bool{}
+	for _, rep := range strings.Split(text, "==================") {
+		if !strings.Contains(rep, "WARNING: DATA RACE") {
+			continue
+		}
+		lines := strings.Split(rep, "\n")
+		tops := []string{}
+		for i := 0; i < len(lines); i++ {
+			if !c40AccessHeader(lines[i]) {
+				continue
+			}
+			top := "unknown"
+			for j := i + 1; j < len(lines) && strings.TrimSpace(lines[j]) != ""; j++ {
+				fl := lines[j]
+				if strings.HasPrefix(fl, "  ") && !strings.HasPrefix(fl, "   ") {
+					fn := strings.TrimSpace(fl)
+					if !c40RuntimeFrame(fn) && !strings.HasPrefix(fn, "[") {
+						top = c40ShortFunc(fn)
+
+						break
+					}
+				}
+			}
+			tops = append(tops, top)
+		}
+		for len(tops) < 2 {
+			tops = append(tops, "unknown")
+		}
+		pair := tops[:2]
+		sort.Strings(pair)
+		set[pair[0]+"~"+pair[1]] = true
+	}
+	out := []string{}
+	for k := range set {
+		out = append(out, k)
+	}
+	sort.Strings(out)
+
+	return out
+}
+
+var (
+	c40KnownOnce sync.Once
+	c40Known     map[string]bool
+)
+
+// c40KnownKeys: the recorded C40 findings. They only influence the ORDER of the keys printed after
+// `race` (unlisted first), so that a recorded race can never hide a new one behind it — the judge
+// names the first key.
+func c40KnownKeys() map[string]bool {
+	c40KnownOnce.Do(func() {
+		c40Known = map[string]bool{}
+		data, err := os.ReadFile(filepath.Join(os.Getenv("VERIF_ROOT"), "known_findings.json"))
+		if err != nil {
+			return
+		}
+		var k struct {
+			Findings []struct{ Property, Key string } `json:"findings"`
+		}
+		if json.Unmarshal(data, &k) != nil {
+			return
+		}
+		for _, f := range k.Findings {
+			if f.Property == "C40" {
+				c40Known[strings.TrimPrefix(f.Key, "data-race:")] = true
+			}
+		}
+	})
+
+	return c40Known
+}
+
+// c40Verdict turns the result of the scenario and the growth of the race log into the output line and
+// stores the report text next to the log for the replay file (bin/check picks it up by op hash).
+func c40Verdict(args []string, res string, before int64) string {
+	p := c40RaceLogPath()
+	if p == "" || raceLogSize() <= before {
+		return res
+	}
+	time.Sleep(20 * time.Millisecond) // let a report that is being written finish
+	data, err := os.ReadFile(p)
+	if err != nil || int64(len(data)) <= before {
+		return res
+	}
+	text := string(data[before:])
+	pairs := c40RacePairs(text)
+	if len(pairs) == 0 {
+		return res
+	}
+	known := c40KnownKeys()
+	sort.SliceStable(pairs, func(i, j int) bool { return !known[pairs[i]] && known[pairs[j]] })
+	h := sha1.Sum([]byte("C40 " + strings.Join(args, " "))) //nolint:gosec
+	_ = os.WriteFile(os.Getenv("WVH_RACE_LOG")+"-op-"+hex.EncodeToString(h[:6])+".txt", []byte(text), 0o644)
+
+	return "race " + strings.Join(pairs, " ")
+}
+
+// ---------------------------------------------------------------------------------------------
+// conc: seeded random programs next to a serialized signaling exchange
+
 func c40Run(seed int64, ng, ncalls int) string {
-	before := raceLogSize()
 	se := webrtc.SettingEngine{}
 	se.SetICETimeouts(2*time.Second, 4*time.Second, 500*time.Millisecond)
 	api := webrtc.NewAPI(webrtc.WithSettingEngine(se))
@@ -218,62 +393,1163 @@ func c40Run(seed int64, ng, ncalls int) string {
 		close(fin)
 	}()
 	res := "ok"
-	select {
-	case <-fin:
-	case <-time.After(40 * time.Second):
-		res = "hang"
-		buf := make([]byte, 1<<20)
-		n := runtime.Stack(buf, true)
-		_ = os.WriteFile(filepath.Join(os.TempDir(), "wvh-c40-hang.txt"), buf[:n], 0o644)
+	if !c40Wait(fin) {
+		res = "hang conc"
 	}
 	close(done)
-	closed := make(chan struct{})
-	go func() {
-		_ = pcA.Close()
-		_ = pcB.Close()
-		close(closed)
-	}()
-	select {
-	case <-closed:
-	case <-time.After(20 * time.Second):
-		if res == "ok" {
-			res = "hang"
-		}
-	}
-	if raceLogSize() > before {
-		res = "race"
+	if !c40CloseAll(pcA, pcB) && res == "ok" {
+		res = "hang close"
 	}
 
 	return res
 }
 
-func init() {
-	registry["C40"] = &Prop{
-		Workers: 6,
-		Timeout: 90 * time.Second,
-		Rule: "seeded concurrent programs: 4–12 goroutines × 20–120 calls drawn from AddTrack (RTP and sample tracks), " +
-			"RemoveTrack, AddTransceiverFromKind, CreateDataChannel, GetTransceivers (+ per-transceiver getters), " +
-			"GetSenders/GetReceivers, state getters, GetStats, WriteRTP/WriteSample, late Close, while one goroutine " +
-			"runs three serialized offer/answer rounds with a peer; executed from a -race build; a race report, a 40 s " +
-			"watchdog expiry or a Close that does not return is a failing input. Non-trivial: distinct seeds.",
-		Gen: func(c *Ctx) {
-			for i := 0; i < c.N(18, 400); i++ {
-				c.Emit("conc %d %d %d", c.Rng.Int63n(1<<40), 4+c.Rng.Intn(9), 20+c.Rng.Intn(100))
+// ---------------------------------------------------------------------------------------------
+// par: table-driven concurrent groups at a setup point
+
+const (
+	c40Soft       = 40 * time.Second // after this the watchdog starts looking at the goroutines
+	c40Hard       = 4 * time.Minute  // unconditional limit for one group / the teardown
+	c40SetupAfter = 30 * time.Second
+)
+
+var c40CurrentArgs []string //nolint:gochecknoglobals // the op line this process executes (one per process)
+
+func c40DumpGoroutines() {
+	buf := make([]byte, 4<<20)
+	n := runtime.Stack(buf, true)
+	_ = os.WriteFile(filepath.Join(os.TempDir(), "wvh-c40-hang.txt"), buf[:n], 0o644)
+	if keep := os.Getenv("WVH_RACE_LOG"); keep != "" && c40CurrentArgs != nil {
+		h := sha1.Sum([]byte("C40 " + strings.Join(c40CurrentArgs, " "))) //nolint:gosec
+		if n > 60000 {
+			n = 60000
+		}
+		_ = os.WriteFile(keep+"-hang-"+hex.EncodeToString(h[:6])+".txt", buf[:n], 0o644)
+	}
+}
+
+type c40GState struct {
+	active bool   // running / runnable / in a syscall
+	frames string // the stack without its header line
+	op     bool   // one of the scenario's calling goroutines, currently inside the library
+	pion   bool
+}
+
+func c40Snapshot() map[string]c40GState {
+	buf := make([]byte, 4<<20)
+	n := runtime.Stack(buf, true)
+	out := map[string]c40GState{}
+	for _, blk := range strings.Split(string(buf[:n]), "\n\n") {
+		nl := strings.Index(blk, "\n")
+		if nl < 0 || !strings.HasPrefix(blk, "goroutine ") || strings.Contains(blk, "main.c40Snapshot") {
+			continue
+		}
+		head, frames := blk[:nl], blk[nl+1:]
+		f := strings.Fields(head)
+		if len(f) < 3 {
+			continue
+		}
+		st := strings.Trim(strings.SplitN(head[strings.Index(head, "[")+1:], ",", 2)[0], "[]:")
+		g := c40GState{frames: frames, pion: strings.Contains(frames, "github.com/pion/")}
+		g.active = st == "running" || st == "runnable" || st == "syscall"
+		g.op = g.pion && (strings.Contains(frames, "main.c40RunGroup.func1") || strings.Contains(frames, "main.c40Run.func") ||
+			strings.Contains(frames, "main.c40CloseAll.func1"))
+		out[f[1]] = g
+	}
+
+	return out
+}
+
+// c40LooksHung: four goroutine dumps half a second apart. The scenario counts as hung when every calling
+// goroutine that is inside the library sits blocked with an unchanged stack in all four, and no goroutine
+// with library frames is running or runnable in three of them (someone is still working, however slowly —
+// on a loaded machine that is the common case, and then only the hard limit applies).
+func c40LooksHung() bool {
+	snaps := []map[string]c40GState{}
+	for i := 0; i < 4; i++ {
+		if i > 0 {
+			time.Sleep(500 * time.Millisecond)
+		}
+		snaps = append(snaps, c40Snapshot())
+	}
+	ops := 0
+	for id, g := range snaps[0] {
+		if g.op {
+			ops++
+			for _, s := range snaps {
+				if h, ok := s[id]; !ok || h.active || h.frames != g.frames {
+					return false
+				}
 			}
-		},
-		Exec: func(a []string) string {
-			if len(a) != 4 || a[0] != "conc" {
+		}
+	}
+	if ops == 0 {
+		return false
+	}
+	busy := map[string]int{}
+	for _, s := range snaps {
+		for id, g := range s {
+			if g.pion && g.active {
+				busy[id]++
+			}
+		}
+	}
+	for _, n := range busy {
+		if n >= 3 {
+			return false
+		}
+	}
+
+	return true
+}
+
+// c40Wait waits for fin; false = hung.
+func c40Wait(fin <-chan struct{}) bool {
+	hard := time.After(c40Hard)
+	select {
+	case <-fin:
+		return true
+	case <-time.After(c40Soft):
+	}
+	for {
+		if c40LooksHung() {
+			select {
+			case <-fin:
+				return true
+			default:
+			}
+			c40DumpGoroutines()
+
+			return false
+		}
+		select {
+		case <-fin:
+			return true
+		case <-hard:
+			c40DumpGoroutines()
+
+			return false
+		case <-time.After(5 * time.Second):
+		}
+	}
+}
+
+func c40CloseAll(pcs ...*webrtc.PeerConnection) bool {
+	closed := make(chan struct{})
+	go func() {
+		for _, pc := range pcs {
+			if pc != nil {
+				_ = pc.Close()
+			}
+		}
+		close(closed)
+	}()
+
+	return c40Wait(closed)
+}
+
+// c40Bounded runs a documented-blocking read without waiting for it longer than 150 ms (a deadline set
+// before the read may be lost when a concurrent call replaces the stream; the read then ends at teardown).
+func c40Bounded(f func()) {
+	done := make(chan struct{})
+	go func() {
+		defer close(done)
+		f()
+	}()
+	select {
+	case <-done:
+	case <-time.After(150 * time.Millisecond):
+	}
+}
+
+// c40Fix is the fixture the entry points act on; nothing in it is written after setup.
+type c40Fix struct {
+	A, B       *webrtc.PeerConnection
+	ts, ts2    *webrtc.TrackLocalStaticSample // video; ts is sent by sndV, ts2 is the spare for ReplaceTrack
+	tr, tr2    *webrtc.TrackLocalStaticRTP    // audio; tr is sent by sndA
+	sndV, sndA *webrtc.RTPSender
+	tcvV, tcvA *webrtc.RTPTransceiver
+	rcv        *webrtc.RTPReceiver // receiver of the video transceiver
+	remote     *webrtc.TrackRemote // B's video as received by A (conn setups only)
+	dc         *webrtc.DataChannel
+	sctp       *webrtc.SCTPTransport
+	dtls       *webrtc.DTLSTransport
+	ice        *webrtc.ICETransport
+	gat        *webrtc.ICEGatherer
+	bCands     []webrtc.ICECandidateInit
+	stop       chan struct{}
+	bg         sync.WaitGroup
+}
+
+// c40G is the private state of one goroutine of a group (never shared: the harness must not add
+// synchronisation between the goroutines it races).
+type c40G struct {
+	r       *rand.Rand
+	g, k    int
+	senders []*webrtc.RTPSender
+	tcvs    []*webrtc.RTPTransceiver
+	dcs     []*webrtc.DataChannel
+}
+
+const (
+	fSig    = 1 << iota // signaling call: at most one goroutine of a group makes signaling calls (the property's "one goroutine performs a serialized signaling exchange")
+	fOnce               // destructive: called once per goroutine, and its group is placed last on the line
+	fRO                 // pure getter
+	fListed             // named by the property text (track/transceiver/data-channel calls, state getters, GetStats, local-track writes, Close)
+	fConn               // only meaningful on a connected fixture
+	fHeavy              // expensive: a quarter of the repetitions
+	fGrow               // adds a track / transceiver / data channel: never repeated beyond its own count (the SDP would grow without bound)
+)
+
+type c40Op struct {
+	Name  string
+	Flags int
+	Run   func(f *c40Fix, x *c40G)
+}
+
+func c40Noop()         {}
+func c40NoopErr(error) {}
+func c40SDPExchange(o, a *webrtc.PeerConnection, opt *webrtc.OfferOptions) {
+	dbg := func(step string, err error) bool {
+		if err != nil && os.Getenv("WVH_C40_DEBUG") != "" {
+			fmt.Fprintf(os.Stderr, "c40 exchange: %s: %v\n", step, err)
+		}
+
+		return err != nil
+	}
+	// the exchange is serialized and complete: an offer that is already pending on the offerer (setup point
+	// `offer`) is carried through instead of being replaced, one pending on the answerer is rolled back first
+	if a.SignalingState() == webrtc.SignalingStateHaveLocalOffer {
+		dbg("rollback", a.SetLocalDescription(webrtc.SessionDescription{Type: webrtc.SDPTypeRollback}))
+	}
+	if o.SignalingState() != webrtc.SignalingStateHaveLocalOffer {
+		offer, err := o.CreateOffer(opt)
+		if dbg("CreateOffer", err) || dbg("SetLocalDescription(offer)", o.SetLocalDescription(offer)) {
+			return
+		}
+	}
+	ld := o.LocalDescription()
+	if ld == nil || dbg("SetRemoteDescription(offer)", a.SetRemoteDescription(*ld)) {
+		return
+	}
+	answer, err := a.CreateAnswer(nil)
+	if dbg("CreateAnswer", err) || dbg("SetLocalDescription(answer)", a.SetLocalDescription(answer)) {
+		return
+	}
+	if ld = a.LocalDescription(); ld != nil {
+		dbg("SetRemoteDescription(answer)", o.SetRemoteDescription(*ld))
+	}
+}
+
+var c40Opus = webrtc.RTPCodecCapability{MimeType: webrtc.MimeTypeOpus, ClockRate: 48000, Channels: 2}
+var c40VP8 = webrtc.RTPCodecCapability{MimeType: webrtc.MimeTypeVP8, ClockRate: 90000}
+
+func c40RawRTP(seq uint16) []byte {
+	b, _ := (&rtp.Packet{Header: rtp.Header{Version: 2, SequenceNumber: seq, Timestamp: uint32(seq) * 960}, Payload: []byte{0xf8, 1, 2, 3}}).Marshal()
+
+	return b
+}
+
+// c40Ops — ONE LINE PER ENTRY POINT. Adding a public call to the scenarios means adding a line here;
+// the generator pairs it with every other line at every setup point it is allowed at.
+var c40Ops = []c40Op{ //nolint:gochecknoglobals
+	// --- PeerConnection: track / transceiver / data-channel calls
+	{"pc.AddTrackRTP", fListed | fGrow, func(f *c40Fix, x *c40G) {
+		if t, e := webrtc.NewTrackLocalStaticRTP(c40VP8, fmt.Sprintf("v%d_%d", x.g, x.k), "s"); e == nil {
+			if s, e := f.A.AddTrack(t); e == nil {
+				x.senders = append(x.senders, s)
+			}
+		}
+	}},
+	{"pc.AddTrackSample", fListed | fGrow, func(f *c40Fix, x *c40G) {
+		if t, e := webrtc.NewTrackLocalStaticSample(c40Opus, fmt.Sprintf("a%d_%d", x.g, x.k), "s"); e == nil {
+			if s, e := f.A.AddTrack(t); e == nil {
+				x.senders = append(x.senders, s)
+			}
+		}
+	}},
+	{"pc.RemoveTrack", fListed, func(f *c40Fix, x *c40G) {
+		if n := len(x.senders); n > 0 {
+			_ = f.A.RemoveTrack(x.senders[n-1])
+			x.senders = x.senders[:n-1]
+		} else if ss := f.A.GetSenders(); len(ss) > 0 {
+			_ = f.A.RemoveTrack(ss[x.r.Intn(len(ss))])
+		}
+	}},
+	{"pc.AddTransceiverFromKind", fListed | fGrow, func(f *c40Fix, x *c40G) {
+		kind := []webrtc.RTPCodecType{webrtc.RTPCodecTypeAudio, webrtc.RTPCodecTypeVideo}[x.r.Intn(2)]
+		dir := []webrtc.RTPTransceiverDirection{webrtc.RTPTransceiverDirectionSendrecv, webrtc.RTPTransceiverDirectionRecvonly, webrtc.RTPTransceiverDirectionSendonly}[x.r.Intn(3)]
+		if t, e := f.A.AddTransceiverFromKind(kind, webrtc.RTPTransceiverInit{Direction: dir}); e == nil {
+			x.tcvs = append(x.tcvs, t)
+		}
+	}},
+	{"pc.AddTransceiverFromTrack", fListed | fGrow, func(f *c40Fix, x *c40G) {
+		if t, e := webrtc.NewTrackLocalStaticSample(c40VP8, fmt.Sprintf("t%d_%d", x.g, x.k), "s"); e == nil {
+			if tc, e := f.A.AddTransceiverFromTrack(t, webrtc.RTPTransceiverInit{Direction: webrtc.RTPTransceiverDirectionSendonly}); e == nil {
+				x.tcvs = append(x.tcvs, tc)
+			}
+		}
+	}},
+	{"pc.CreateDataChannel", fListed | fGrow, func(f *c40Fix, x *c40G) {
+		if d, e := f.A.CreateDataChannel(fmt.Sprintf("d%d_%d", x.g, x.k), nil); e == nil {
+			x.dcs = append(x.dcs, d)
+		}
+	}},
+	{"pc.GetTransceivers", fListed | fRO, func(f *c40Fix, _ *c40G) {
+		for _, t := range f.A.GetTransceivers() {
+			_, _, _ = t.Mid(), t.Direction(), t.Kind()
+			if s := t.Sender(); s != nil {
+				_, _ = s.GetParameters(), s.Track()
+			}
+			if rc := t.Receiver(); rc != nil {
+				_, _ = rc.GetParameters(), rc.Tracks()
+			}
+		}
+	}},
+	{"pc.GetSenders", fListed | fRO, func(f *c40Fix, _ *c40G) { _ = f.A.GetSenders() }},
+	{"pc.GetReceivers", fListed | fRO, func(f *c40Fix, _ *c40G) { _ = f.A.GetReceivers() }},
+	// --- PeerConnection: getters
+	{"pc.StateGetters", fListed | fRO, func(f *c40Fix, _ *c40G) {
+		_, _, _, _ = f.A.SignalingState(), f.A.ConnectionState(), f.A.ICEConnectionState(), f.A.ICEGatheringState()
+	}},
+	{"pc.Descriptions", fListed | fRO, func(f *c40Fix, _ *c40G) {
+		_, _, _ = f.A.LocalDescription(), f.A.RemoteDescription(), f.A.CanTrickleICECandidates()
+		_, _, _, _ = f.A.CurrentLocalDescription(), f.A.PendingLocalDescription(), f.A.CurrentRemoteDescription(), f.A.PendingRemoteDescription()
+	}},
+	{"pc.GetStats", fListed | fHeavy, func(f *c40Fix, _ *c40G) { _ = f.A.GetStats() }},
+	{"pc.GetConfiguration", fRO, func(f *c40Fix, _ *c40G) { _, _, _ = f.A.GetConfiguration(), f.A.SCTP(), f.A.ID() }},
+	{"pc.SetConfiguration", 0, func(f *c40Fix, _ *c40G) { _ = f.A.SetConfiguration(webrtc.Configuration{}) }},
+	{"pc.OnHandlers", 0, func(f *c40Fix, _ *c40G) {
+		f.A.OnSignalingStateChange(func(webrtc.SignalingState) {})
+		f.A.OnDataChannel(func(*webrtc.DataChannel) {})
+		f.A.OnNegotiationNeeded(c40Noop)
+		f.A.OnICECandidate(func(*webrtc.ICECandidate) {})
+		f.A.OnICEGatheringStateChange(func(webrtc.ICEGatheringState) {})
+		f.A.OnTrack(func(*webrtc.TrackRemote, *webrtc.RTPReceiver) {})
+		f.A.OnICEConnectionStateChange(func(webrtc.ICEConnectionState) {})
+		f.A.OnConnectionStateChange(func(webrtc.PeerConnectionState) {})
+	}},
+	{"pc.WriteRTCP", 0, func(f *c40Fix, _ *c40G) {
+		_ = f.A.WriteRTCP([]rtcp.Packet{&rtcp.PictureLossIndication{SenderSSRC: 1, MediaSSRC: 2}})
+	}},
+	{"pc.Close", fListed | fOnce, func(f *c40Fix, _ *c40G) { _ = f.A.Close() }},
+	{"pc.GracefulClose", fOnce, func(f *c40Fix, _ *c40G) { _ = f.A.GracefulClose() }},
+	{"peer.Close", fOnce, func(f *c40Fix, _ *c40G) { _ = f.B.Close() }},
+	// --- the serialized signaling exchange (one goroutine of a group at most)
+	{"sig.Exchange", fSig | fHeavy | fListed, func(f *c40Fix, _ *c40G) { c40SDPExchange(f.A, f.B, nil) }},
+	{"sig.ExchangeFromPeer", fSig | fHeavy | fListed, func(f *c40Fix, _ *c40G) { c40SDPExchange(f.B, f.A, nil) }},
+	{"sig.ICERestart", fSig | fHeavy, func(f *c40Fix, _ *c40G) { c40SDPExchange(f.A, f.B, &webrtc.OfferOptions{ICERestart: true}) }},
+	{"sig.CreateOffer", fSig, func(f *c40Fix, _ *c40G) { _, _ = f.A.CreateOffer(nil) }},
+	{"sig.OfferThenRollback", fSig, func(f *c40Fix, _ *c40G) {
+		if o, e := f.A.CreateOffer(nil); e == nil && f.A.SetLocalDescription(o) == nil {
+			_ = f.A.SetLocalDescription(webrtc.SessionDescription{Type: webrtc.SDPTypeRollback})
+		}
+	}},
+	{"sig.AddICECandidate", fSig, func(f *c40Fix, x *c40G) {
+		if len(f.bCands) > 0 {
+			_ = f.A.AddICECandidate(f.bCands[x.r.Intn(len(f.bCands))])
+		}
+		_ = f.A.AddICECandidate(webrtc.ICECandidateInit{})
+	}},
+	// --- local tracks
+	{"ts.WriteSample", fListed, func(f *c40Fix, _ *c40G) {
+		_ = f.ts.WriteSample(media.Sample{Data: make([]byte, 2600), Duration: 33 * time.Millisecond})
+	}},
+	{"ts.WriteSampleDropped", fListed, func(f *c40Fix, _ *c40G) {
+		_ = f.ts.WriteSample(media.Sample{Data: []byte{1, 2, 3, 4}, Duration: 33 * time.Millisecond, PrevDroppedPackets: 2})
+	}},
+	{"ts.GeneratePadding", 0, func(f *c40Fix, _ *c40G) { _ = f.ts.GeneratePadding(1) }},
+	{"tr.WriteRTP", fListed, func(f *c40Fix, x *c40G) {
+		_ = f.tr.WriteRTP(&rtp.Packet{Header: rtp.Header{Version: 2, SequenceNumber: uint16(x.k), Timestamp: uint32(x.k) * 960}, Payload: []byte{0xf8, 1, 2}}) //nolint:gosec
+	}},
+	{"tr.Write", fListed, func(f *c40Fix, x *c40G) { _, _ = f.tr.Write(c40RawRTP(uint16(x.k))) }}, //nolint:gosec
+	{"trk.LocalGetters", fRO, func(f *c40Fix, _ *c40G) {
+		_, _, _, _, _ = f.ts.ID(), f.ts.StreamID(), f.ts.RID(), f.ts.Kind(), f.ts.Codec()
+		_, _, _, _, _ = f.tr.ID(), f.tr.StreamID(), f.tr.RID(), f.tr.Kind(), f.tr.Codec()
+	}},
+	// --- RTPSender (the video sender)
+	{"snd.ReplaceTrack", 0, func(f *c40Fix, x *c40G) {
+		switch x.r.Intn(5) {
+		case 0:
+			_ = f.sndV.ReplaceTrack(nil)
+		case 1, 2:
+			_ = f.sndV.ReplaceTrack(f.ts2)
+		default:
+			_ = f.sndV.ReplaceTrack(f.ts)
+		}
+	}},
+	{"snd.Getters", fRO, func(f *c40Fix, _ *c40G) { _, _, _ = f.sndV.GetParameters(), f.sndV.Track(), f.sndV.Transport() }},
+	{"snd.Send", 0, func(f *c40Fix, _ *c40G) { _ = f.sndV.Send(f.sndV.GetParameters()) }},
+	{"snd.ReadRTCP", fConn, func(f *c40Fix, _ *c40G) {
+		if f.sndV.SetReadDeadline(time.Now().Add(2*time.Millisecond)) == nil {
+			c40Bounded(func() { _, _, _ = f.sndV.ReadRTCP() })
+		}
+	}},
+	{"snd.Stop", fOnce, func(f *c40Fix, _ *c40G) { _ = f.sndV.Stop() }},
+	// --- RTPReceiver / TrackRemote (the video receiver)
+	{"rcv.Getters", fRO, func(f *c40Fix, _ *c40G) {
+		_, _, _, _, _ = f.rcv.GetParameters(), f.rcv.Track(), f.rcv.Tracks(), f.rcv.Transport(), f.rcv.RTPTransceiver()
+	}},
+	{"rcv.ReadRTCP", fConn, func(f *c40Fix, _ *c40G) {
+		if f.rcv.SetReadDeadline(time.Now().Add(2*time.Millisecond)) == nil {
+			c40Bounded(func() { _, _, _ = f.rcv.ReadRTCP() })
+		}
+	}},
+	{"rcv.Stop", fOnce, func(f *c40Fix, _ *c40G) { _ = f.rcv.Stop() }},
+	{"rtrk.ReadRTP", fConn, func(f *c40Fix, _ *c40G) {
+		if f.remote.SetReadDeadline(time.Now().Add(2*time.Millisecond)) == nil {
+			c40Bounded(func() { _, _, _ = f.remote.ReadRTP() })
+		}
+	}},
+	{"rtrk.Getters", fRO | fConn, func(f *c40Fix, _ *c40G) {
+		t := f.remote
+		_, _, _, _, _ = t.ID(), t.RID(), t.PayloadType(), t.Kind(), t.StreamID()
+		_, _, _, _, _ = t.SSRC(), t.Msid(), t.Codec(), t.RtxSSRC(), t.HasRTX()
+	}},
+	// --- RTPTransceiver (the audio transceiver)
+	{"tcv.SetCodecPreferences", 0, func(f *c40Fix, x *c40G) {
+		cs := []webrtc.RTPCodecParameters{{RTPCodecCapability: c40Opus, PayloadType: 111}}
+		if x.r.Intn(3) == 0 {
+			cs = nil
+		}
+		_ = f.tcvA.SetCodecPreferences(cs)
+	}},
+	{"tcv.SetSender", 0, func(f *c40Fix, x *c40G) { _ = f.tcvA.SetSender(f.sndA, []webrtc.TrackLocal{f.tr, f.tr2}[x.r.Intn(2)]) }},
+	{"tcv.Getters", fRO, func(f *c40Fix, _ *c40G) {
+		_, _, _, _, _ = f.tcvA.Direction(), f.tcvA.Mid(), f.tcvA.Kind(), f.tcvA.Sender(), f.tcvA.Receiver()
+	}},
+	{"tcv.SetMid", 0, func(f *c40Fix, _ *c40G) { _ = f.tcvA.SetMid("9") }},
+	{"tcv.Stop", fOnce, func(f *c40Fix, _ *c40G) { _ = f.tcvA.Stop() }},
+	// --- DataChannel
+	{"dc.Send", 0, func(f *c40Fix, _ *c40G) { _ = f.dc.Send([]byte{1, 2, 3, 4}) }},
+	{"dc.SendText", 0, func(f *c40Fix, _ *c40G) { _ = f.dc.SendText("hello") }},
+	{"dc.OnHandlers", 0, func(f *c40Fix, _ *c40G) {
+		f.dc.OnOpen(c40Noop)
+		f.dc.OnDial(c40Noop)
+		f.dc.OnClose(c40Noop)
+		f.dc.OnMessage(func(webrtc.DataChannelMessage) {})
+		f.dc.OnError(c40NoopErr)
+		f.dc.OnBufferedAmountLow(c40Noop)
+	}},
+	{"dc.BufferedAmount", 0, func(f *c40Fix, x *c40G) {
+		_, _ = f.dc.BufferedAmount(), f.dc.BufferedAmountLowThreshold()
+		f.dc.SetBufferedAmountLowThreshold(uint64(x.k)) //nolint:gosec
+	}},
+	{"dc.Getters", fRO, func(f *c40Fix, _ *c40G) {
+		d := f.dc
+		_, _, _, _, _ = d.Label(), d.Ordered(), d.MaxPacketLifeTime(), d.MaxRetransmits(), d.Protocol()
+		_, _, _, _ = d.Negotiated(), d.ID(), d.ReadyState(), d.Transport()
+	}},
+	{"dc.Close", fOnce, func(f *c40Fix, _ *c40G) { _ = f.dc.Close() }},
+	{"dc.GracefulClose", fOnce, func(f *c40Fix, _ *c40G) { _ = f.dc.GracefulClose() }},
+	// --- transports
+	{"sctp.Getters", fRO, func(f *c40Fix, _ *c40G) {
+		s := f.sctp
+		_, _, _, _, _ = s.State(), s.MaxChannels(), s.Stats(), s.BufferedAmount(), s.Transport()
+		_ = s.GetCapabilities() // not GetSctpInit: documented "the caller should hold the lock"
+		_, _ = s.Metadata()
+	}},
+	{"sctp.OnHandlers", 0, func(f *c40Fix, _ *c40G) {
+		f.sctp.OnError(c40NoopErr)
+		f.sctp.OnClose(c40NoopErr)
+		f.sctp.OnDataChannelOpened(func(*webrtc.DataChannel) {})
+	}},
+	{"dtls.Getters", fRO, func(f *c40Fix, _ *c40G) {
+		_, _, _ = f.dtls.State(), f.dtls.GetRemoteCertificate(), f.dtls.ICETransport()
+		_, _ = f.dtls.GetLocalParameters()
+	}},
+	{"dtls.OnStateChange", 0, func(f *c40Fix, _ *c40G) { f.dtls.OnStateChange(func(webrtc.DTLSTransportState) {}) }},
+	{"dtls.WriteRTCP", 0, func(f *c40Fix, _ *c40G) {
+		_, _ = f.dtls.WriteRTCP([]rtcp.Packet{&rtcp.ReceiverReport{SSRC: 1}})
+	}},
+	{"ice.Getters", fRO, func(f *c40Fix, _ *c40G) {
+		_, _, _ = f.ice.State(), f.ice.Role(), f.ice.Stats()
+		_, _ = f.ice.GetSelectedCandidatePair()
+		_, _ = f.ice.GetSelectedCandidatePairStats()
+		_, _ = f.ice.GetLocalParameters()
+		_, _ = f.ice.GetRemoteParameters()
+	}},
+	{"ice.OnHandlers", 0, func(f *c40Fix, _ *c40G) {
+		f.ice.OnSelectedCandidatePairChange(func(*webrtc.ICECandidatePair) {})
+		f.ice.OnConnectionStateChange(func(webrtc.ICETransportState) {})
+	}},
+	{"gat.Getters", fRO, func(f *c40Fix, _ *c40G) {
+		_ = f.gat.State()
+		_, _ = f.gat.GetLocalParameters()
+		_, _ = f.gat.GetLocalCandidates()
+	}},
+}
+
+var c40OpIndex = func() map[string]*c40Op { //nolint:gochecknoglobals
+	m := map[string]*c40Op{}
+	for i := range c40Ops {
+		m[c40Ops[i].Name] = &c40Ops[i]
+	}
+
+	return m
+}()
+
+var c40Setups = []string{"fresh", "offer", "conn", "conn2", "closing"} //nolint:gochecknoglobals
+
+func c40Connected(s string) bool { return s == "conn" || s == "conn2" || s == "closing" }
+
+// c40Setup builds the fixture. fresh: everything created, nothing negotiated. offer: A is in
+// have-local-offer (gathering running). conn: connected, media and data-channel messages flowing from B
+// to A in the background. conn2: as conn, and A's two local tracks are ALSO sent by B (one track bound
+// to two PeerConnections). closing: as conn; the first group gets an extra goroutine calling A.Close().
+func c40Setup(setup string) (*c40Fix, string) {
+	api := webrtc.NewAPI(webrtc.WithSettingEngine(loopbackSettings()))
+	f := &c40Fix{stop: make(chan struct{})}
+	var err error
+	if f.A, err = api.NewPeerConnection(webrtc.Configuration{}); err != nil {
+		return nil, "err:newpc"
+	}
+	if f.B, err = api.NewPeerConnection(webrtc.Configuration{}); err != nil {
+		_ = f.A.Close()
+
+		return nil, "err:newpc"
+	}
+	fail := func(s string) (*c40Fix, string) {
+		close(f.stop)
+		c40CloseAll(f.A, f.B)
+
+		return nil, s
+	}
+	f.ts, _ = webrtc.NewTrackLocalStaticSample(c40VP8, "video", "c40")
+	f.ts2, _ = webrtc.NewTrackLocalStaticSample(c40VP8, "video2", "c40")
+	f.tr, _ = webrtc.NewTrackLocalStaticRTP(c40Opus, "audio", "c40")
+	f.tr2, _ = webrtc.NewTrackLocalStaticRTP(c40Opus, "audio2", "c40")
+	if f.sndV, err = f.A.AddTrack(f.ts); err != nil {
+		return fail("err:addtrack")
+	}
+	if f.sndA, err = f.A.AddTrack(f.tr); err != nil {
+		return fail("err:addtrack")
+	}
+	for _, t := range f.A.GetTransceivers() {
+		switch t.Sender() {
+		case f.sndV:
+			f.tcvV = t
+		case f.sndA:
+			f.tcvA = t
+		}
+	}
+	if f.tcvV == nil || f.tcvA == nil || f.tcvV.Receiver() == nil {
+		return fail("err:transceivers")
+	}
+	f.rcv = f.tcvV.Receiver()
+	if f.dc, err = f.A.CreateDataChannel("c40", nil); err != nil {
+		return fail("err:dc")
+	}
+	f.sctp = f.A.SCTP()
+	f.dtls = f.sctp.Transport()
+	f.ice = f.dtls.ICETransport()
+	f.gat = webrtc.VerifICEGatherer(f.A)
+
+	bVideo, _ := webrtc.NewTrackLocalStaticSample(c40VP8, "bvideo", "c40b")
+	if _, err = f.B.AddTrack(bVideo); err != nil {
+		return fail("err:addtrack")
+	}
+	if setup == "conn2" {
+		if _, err = f.B.AddTrack(f.ts); err != nil {
+			return fail("err:addtrack")
+		}
+		if _, err = f.B.AddTrack(f.tr); err != nil {
+			return fail("err:addtrack")
+		}
+	}
+	switch {
+	case setup == "fresh":
+		return f, ""
+	case setup == "offer":
+		offer, err := f.A.CreateOffer(nil)
+		if err != nil || f.A.SetLocalDescription(offer) != nil {
+			return fail("err:offer")
+		}
+
+		return f, ""
+	case !c40Connected(setup):
+		return fail("bad-op")
+	}
+
+	remoteCh := make(chan *webrtc.TrackRemote, 4)
+	f.A.OnTrack(func(t *webrtc.TrackRemote, _ *webrtc.RTPReceiver) {
+		select {
+		case remoteCh <- t:
+		default:
+		}
+	})
+	bdcCh := make(chan *webrtc.DataChannel, 4)
+	f.B.OnDataChannel(func(d *webrtc.DataChannel) {
+		d.OnOpen(func() {
+			select {
+			case bdcCh <- d:
+			default:
+			}
+		})
+	})
+	var cmu sync.Mutex
+	f.B.OnICECandidate(func(c *webrtc.ICECandidate) {
+		if c != nil {
+			cmu.Lock()
+			f.bCands = append(f.bCands, c.ToJSON())
+			cmu.Unlock()
+		}
+	})
+	if err = Negotiate(f.A, f.B); err != nil {
+		return fail("inconclusive negotiate")
+	}
+	if setup == "conn2" { // B's extra tracks need media sections of their own: B offers
+		if err = Negotiate(f.B, f.A); err != nil {
+			return fail("inconclusive negotiate")
+		}
+	}
+	cmu.Lock()
+	f.bCands = append([]webrtc.ICECandidateInit{}, f.bCands...)
+	cmu.Unlock()
+	f.B.OnICECandidate(func(*webrtc.ICECandidate) {})
+	if !(&Pair{A: f.A, B: f.B}).WaitConnected(c40SetupAfter) {
+		return fail("inconclusive connect")
+	}
+	// B's media and messages towards A, in the background until the fixture is torn down
+	var bdc *webrtc.DataChannel
+	select {
+	case bdc = <-bdcCh:
+	case <-time.After(c40SetupAfter):
+		return fail("inconclusive datachannel")
+	}
+	f.bg.Add(1)
+	go func() {
+		defer f.bg.Done()
+		tick := time.NewTicker(3 * time.Millisecond)
+		defer tick.Stop()
+		for i := 0; ; i++ {
+			select {
+			case <-f.stop:
+				return
+			case <-tick.C:
+			}
+			_ = bVideo.WriteSample(media.Sample{Data: []byte{0x10, 0, 0, 1, 2, 3}, Duration: 33 * time.Millisecond})
+			if i%8 == 0 {
+				_ = bdc.SendText("ping")
+			}
+		}
+	}()
+	select {
+	case t := <-remoteCh:
+		for t.ID() != "bvideo" { // conn2: A also receives its own two tracks back
+			select {
+			case t = <-remoteCh:
+			case <-time.After(c40SetupAfter):
+				return fail("inconclusive remote-track")
+			}
+		}
+		f.remote = t
+	case <-time.After(c40SetupAfter):
+		return fail("inconclusive remote-track")
+	}
+
+	return f, ""
+}
+
+func (f *c40Fix) teardown() bool {
+	close(f.stop)
+	ok := c40CloseAll(f.A, f.B)
+	f.bg.Wait()
+
+	return ok
+}
+
+// c40RunGroup releases ng goroutines on the group's entry points through one barrier.
+func c40RunGroup(f *c40Fix, ops []*c40Op, seed int64, gi, ng, reps int, withClose bool) bool {
+	nonSig := []*c40Op{}
+	for _, o := range ops {
+		if o.Flags&fSig == 0 {
+			nonSig = append(nonSig, o)
+		}
+	}
+	start := make(chan struct{})
+	var wg, anchors sync.WaitGroup
+	// anchors: the signaling exchange and destructive calls (Close, Stop). The other goroutines of the
+	// group keep calling (throttled after their own repetitions) until every anchor has returned — "while
+	// one goroutine performs a serialized signaling exchange".
+	anchored := make(chan struct{})
+	isAnchor := func(o *c40Op) bool { return o.Flags&(fSig|fOnce) != 0 }
+	launch := func(o *c40Op, g int) {
+		x := &c40G{r: rand.New(rand.NewSource(seed*7919 + int64(gi)*131 + int64(g))), g: gi*16 + g} //nolint:gosec
+		n := reps
+		if o.Flags&fHeavy != 0 {
+			n = (reps + 3) / 4
+		}
+		if o.Flags&fOnce != 0 {
+			n = 1
+		}
+		wg.Add(1)
+		if isAnchor(o) {
+			anchors.Add(1)
+		}
+		go func() {
+			defer wg.Done()
+			<-start
+			if isAnchor(o) {
+				defer anchors.Done()
+				for k := 0; k < n; k++ {
+					x.k = k
+					o.Run(f, x)
+				}
+
+				return
+			}
+			for k := 0; k < 5000; k++ {
+				if k >= n {
+					if o.Flags&fGrow != 0 {
+						return
+					}
+					select {
+					case <-anchored:
+						return
+					default:
+					}
+					time.Sleep(time.Duration(100+x.r.Intn(700)) * time.Microsecond)
+				}
+				x.k = k
+				if x.r.Intn(4) == 0 {
+					runtime.Gosched()
+				}
+				o.Run(f, x)
+			}
+		}()
+	}
+	for g := 0; g < ng; g++ {
+		switch {
+		case g < len(ops):
+			launch(ops[g], g)
+		case len(nonSig) > 0:
+			launch(nonSig[(g-len(ops))%len(nonSig)], g)
+		}
+	}
+	if withClose {
+		launch(c40OpIndex["pc.Close"], ng)
+	}
+	fin := make(chan struct{})
+	go func() {
+		anchors.Wait()
+		close(anchored)
+		wg.Wait()
+		close(fin)
+	}()
+	close(start)
+
+	return c40Wait(fin)
+}
+
+func c40Par(a []string) string {
+	// par <setup> <seed> <ng> <reps> <group>…
+	if len(a) < 6 {
+		return "bad-op"
+	}
+	seed, e1 := strconv.ParseInt(a[2], 10, 64)
+	ng, e2 := strconv.Atoi(a[3])
+	reps, e3 := strconv.Atoi(a[4])
+	if e1 != nil || e2 != nil || e3 != nil || ng < 1 || ng > 8 || reps < 1 || reps > 1000 {
+		return "bad-op"
+	}
+	groups := [][]*c40Op{}
+	for _, g := range a[5:] {
+		ops := []*c40Op{}
+		sigs := 0
+		for _, n := range strings.Split(g, "+") {
+			o, ok := c40OpIndex[n]
+			if !ok {
 				return "bad-op"
 			}
-			seed, e1 := strconv.ParseInt(a[1], 10, 64)
-			ng, e2 := strconv.Atoi(a[2])
-			nc, e3 := strconv.Atoi(a[3])
-			if e1 != nil || e2 != nil || e3 != nil {
-				return "bad-op"
+			if o.Flags&fSig != 0 {
+				sigs++
+			}
+			ops = append(ops, o)
+		}
+		if sigs > 1 { // the property's signaling exchange is serialized
+			return "bad-op"
+		}
+		groups = append(groups, ops)
+	}
+	f, why := c40Setup(a[1])
+	if f == nil && strings.HasPrefix(why, "inconclusive") { // a loaded machine: once more
+		f, why = c40Setup(a[1])
+	}
+	if f == nil {
+		return why
+	}
+	res := "ok"
+	for gi, ops := range groups {
+		if !c40RunGroup(f, ops, seed, gi, ng, reps, a[1] == "closing" && gi == 0) {
+			res = "hang " + a[5+gi]
+
+			break
+		}
+	}
+	if !f.teardown() && res == "ok" {
+		res = "hang close"
+	}
+
+	return res
+}
+
+// ---------------------------------------------------------------------------------------------
+// one process per op line
+
+const c40LineTimeout = 15 * time.Minute
+
+var c40Slug = regexp.MustCompile(`[^A-Za-z0-9:]+`)
+
+// c40Spawn executes one op line in a process of its own (this binary, replay mode): the race-detector log
+// of that process then belongs to this line alone (no attribution across concurrently running lines, no
+// goroutines left over from an earlier line, no report suppressed because an earlier line already showed
+// the same race), a fatal runtime error (`fatal error: sync: unlock of unlocked mutex`, concurrent map
+// writes, an unrecovered panic on a library goroutine) costs one line instead of the run, and a hung line
+// can be killed.
+func c40Spawn(a []string) string {
+	self, err := os.Executable()
+	if err != nil {
+		return "err:self"
+	}
+	dir, err := os.MkdirTemp("", "wvh-c40-")
+	if err != nil {
+		return "err:tmp"
+	}
+	defer os.RemoveAll(dir)
+	opf := filepath.Join(dir, "line.ops")
+	if err = os.WriteFile(opf, []byte("C40 "+strings.Join(a, " ")+"\n"), 0o644); err != nil {
+		return "err:tmp"
+	}
+	errf, err := os.Create(filepath.Join(dir, "stderr.txt"))
+	if err != nil {
+		return "err:tmp"
+	}
+	cmd := exec.Command(self, "C40", "-replay", opf, "-out", dir)
+	cmd.Env = append(os.Environ(), "WVH_C40_CHILD=1", "WVH_CHILD=1")
+	cmd.Stderr = errf
+	if err = cmd.Start(); err != nil {
+		errf.Close()
+
+		return "err:spawn"
+	}
+	done := make(chan struct{})
+	go func() {
+		_ = cmd.Wait()
+		close(done)
+	}()
+	select {
+	case <-done:
+	case <-time.After(c40LineTimeout):
+		_ = cmd.Process.Kill()
+		<-done
+		errf.Close()
+
+		return "timeout"
+	}
+	errf.Close()
+	if data, err := os.ReadFile(filepath.Join(dir, "impl.txt")); err == nil {
+		if out := strings.TrimSpace(string(data)); out != "" {
+			return out
+		}
+	}
+	// the process died: name the runtime's complaint
+	data, _ := os.ReadFile(filepath.Join(dir, "stderr.txt"))
+	for _, l := range strings.Split(string(data), "\n") {
+		if strings.HasPrefix(l, "fatal error: ") || strings.HasPrefix(l, "panic: ") {
+			if len(l) > 90 {
+				l = l[:90]
+			}
+			keep := os.Getenv("WVH_RACE_LOG")
+			if keep != "" {
+				h := sha1.Sum([]byte("C40 " + strings.Join(a, " "))) //nolint:gosec
+				if len(data) > 20000 {
+					data = data[:20000]
+				}
+				_ = os.WriteFile(keep+"-op-"+hex.EncodeToString(h[:6])+".txt", data, 0o644)
 			}
 
-			return c40Run(seed, ng, nc)
+			return "crash " + strings.Trim(c40Slug.ReplaceAllString(l, "-"), "-")
+		}
+	}
+
+	return "crash unknown"
+}
+
+// ---------------------------------------------------------------------------------------------
+// generator
+
+func c40Allowed(o *c40Op, setup string) bool {
+	return o.Flags&fConn == 0 || c40Connected(setup)
+}
+
+type c40Group struct {
+	names string
+	last  bool // contains a destructive entry point
+}
+
+func c40MkGroup(ops ...*c40Op) c40Group {
+	g := c40Group{}
+	ns := []string{}
+	for _, o := range ops {
+		ns = append(ns, o.Name)
+		if o.Flags&fOnce != 0 {
+			g.last = true
+		}
+	}
+	g.names = strings.Join(ns, "+")
+
+	return g
+}
+
+// c40Pairs enumerates the unordered pairs of entry points allowed at `setup` that satisfy keep
+// (two signaling calls never form a pair; a self-pair is a pair).
+func c40Pairs(setup string, keep func(a, b *c40Op) bool) []c40Group {
+	out := []c40Group{}
+	for i := range c40Ops {
+		for j := i; j < len(c40Ops); j++ {
+			a, b := &c40Ops[i], &c40Ops[j]
+			if !c40Allowed(a, setup) || !c40Allowed(b, setup) || (a.Flags&fSig != 0 && b.Flags&fSig != 0) {
+				continue
+			}
+			if keep(a, b) {
+				out = append(out, c40MkGroup(a, b))
+			}
+		}
+	}
+
+	return out
+}
+
+// c40EmitLines packs groups into op lines: (one of `first`, if any is left,) up to perLine
+// non-destructive groups, then at most one destructive group — so that a line's setup is shared and the
+// fixture is alive for all but the last group. `first` groups contain the signaling exchange: at the
+// fresh / offer setup points only the FIRST group of a line meets the initial negotiation (transports
+// starting, receivers being configured); every later group already runs on a connected pair.
+func c40EmitLines(c *Ctx, setup string, first, groups []c40Group, perLine int, ng func() int) int {
+	c.Rng.Shuffle(len(groups), func(i, j int) { groups[i], groups[j] = groups[j], groups[i] })
+	c.Rng.Shuffle(len(first), func(i, j int) { first[i], first[j] = first[j], first[i] })
+	nd, d := []c40Group{}, []c40Group{}
+	for _, g := range groups {
+		if g.last {
+			d = append(d, g)
+		} else {
+			nd = append(nd, g)
+		}
+	}
+	lines := 0
+	for len(nd) > 0 || len(d) > 0 || len(first) > 0 {
+		names := []string{}
+		take := perLine
+		if len(first) > 0 {
+			names = append(names, first[0].names)
+			first = first[1:]
+			// spread what is left over the remaining first-group lines
+			if per := (len(nd) + len(first)) / (len(first) + 1); per < take {
+				take = per
+			}
+		} else if len(d) > 0 && len(nd) > 0 {
+			// spread the non-destructive groups over the lines that end in a destructive one
+			if per := (len(nd) + len(d) - 1) / len(d); per < take {
+				take = per
+			}
+		}
+		if take > len(nd) {
+			take = len(nd)
+		}
+		for _, g := range nd[:take] {
+			names = append(names, g.names)
+		}
+		nd = nd[take:]
+		if len(d) > 0 {
+			names = append(names, d[0].names)
+			d = d[1:]
+		}
+		c.Emit("par %s %d %d %d %s", setup, c.Rng.Int63n(1<<40), ng(), 4+c.Rng.Intn(9), strings.Join(names, " "))
+		lines++
+	}
+
+	return lines
+}
+
+func c40Sample(c *Ctx, gs []c40Group, n int) []c40Group {
+	if n >= len(gs) {
+		return gs
+	}
+	c.Rng.Shuffle(len(gs), func(i, j int) { gs[i], gs[j] = gs[j], gs[i] })
+
+	return gs[:n]
+}
+
+// c40SampleSplit samples nd non-destructive and d destructive groups.
+func c40SampleSplit(c *Ctx, gs []c40Group, nd, d int) []c40Group {
+	a, b := []c40Group{}, []c40Group{}
+	for _, g := range gs {
+		if g.last {
+			b = append(b, g)
+		} else {
+			a = append(a, g)
+		}
+	}
+
+	return append(c40Sample(c, a, nd), c40Sample(c, b, d)...)
+}
+
+func c40Gen(c *Ctx) { //nolint:cyclop
+	for i := 0; i < c.N(4, 100); i++ {
+		c.Emit("conc %d %d %d", c.Rng.Int63n(1<<40), 4+c.Rng.Intn(9), 20+c.Rng.Intn(100))
+	}
+	four := func() int { return 4 }
+	varied := func() int { return 2 + c.Rng.Intn(3) }
+	isSig := func(o *c40Op) bool { return o.Flags&fSig != 0 }
+	listed := func(a, b *c40Op) bool { return a.Flags&fListed != 0 && b.Flags&fListed != 0 }
+	writers := func(a, b *c40Op) bool { return a.Flags&fRO == 0 || b.Flags&fRO == 0 } // two pure getters are the least interesting
+	core := func(a, b *c40Op) bool {
+		// the property's own list against itself, and every non-getter entry point against itself; with 4
+		// goroutines a pair X+Y runs as X‖Y‖X‖Y, so every entry point of a core pair also meets itself
+		return (listed(a, b) && writers(a, b)) || (a == b && a.Flags&fRO == 0)
+	}
+	rest := func(a, b *c40Op) bool { return !core(a, b) }
+	noExchange := func(a, b *c40Op) bool { return writers(a, b) && !isExchange(a) && !isExchange(b) }
+	// the local-track writers and the calls that re-bind them: what conn2 (one track, two PeerConnections) is about
+	trackOp := func(o *c40Op) bool {
+		return strings.HasPrefix(o.Name, "ts.") || strings.HasPrefix(o.Name, "tr.") || o.Name == "snd.ReplaceTrack" ||
+			o.Name == "snd.Stop" || o.Name == "pc.RemoveTrack" || o.Name == "tcv.SetSender" || o.Name == "tcv.Stop"
+	}
+	track := func(a, b *c40Op) bool { return trackOp(a) || trackOp(b) }
+	trackBoth := func(a, b *c40Op) bool { return trackOp(a) && trackOp(b) && a.Flags&fOnce == 0 && b.Flags&fOnce == 0 }
+	// X next to the (initial) offer/answer exchange, for every X — placed first on fresh/offer lines
+	withExchange := func(setup string, keep func(o *c40Op) bool, both bool) []c40Group {
+		out := []c40Group{}
+		for i := range c40Ops {
+			o := &c40Ops[i]
+			if isSig(o) || !c40Allowed(o, setup) || !keep(o) {
+				continue
+			}
+			out = append(out, c40MkGroup(o, c40OpIndex["sig.Exchange"]))
+			if both {
+				out = append(out, c40MkGroup(o, c40OpIndex["sig.ExchangeFromPeer"]))
+			}
+		}
+
+		return out
+	}
+	if !c.Thorough() {
+		// quick: the core pairs on a connected fixture (all of them, 4 goroutines); every listed call next to
+		// the initial exchange; the track writers against each other with the tracks bound to two
+		// PeerConnections; a seeded sample of everything else at every setup point
+		c40EmitLines(c, "conn", nil, c40Pairs("conn", core), 10, four)
+		c40EmitLines(c, "conn", nil, c40Sample(c, c40Pairs("conn", rest), 40), 10, varied)
+		c40EmitLines(c, "fresh", withExchange("fresh", func(o *c40Op) bool { return o.Flags&fListed != 0 && o.Flags&fOnce == 0 }, false),
+			c40SampleSplit(c, c40Pairs("fresh", noExchange), 48, 5), 6, four)
+		c40EmitLines(c, "offer", c40Sample(c, withExchange("offer", func(o *c40Op) bool { return o.Flags&fRO == 0 && o.Flags&fOnce == 0 }, true), 6),
+			c40SampleSplit(c, c40Pairs("offer", noExchange), 24, 3), 6, varied)
+		c40EmitLines(c, "conn2", nil, c40Pairs("conn2", trackBoth), 8, four)
+		c40EmitLines(c, "conn2", nil, c40SampleSplit(c, c40Pairs("conn2", track), 20, 3), 8, varied)
+		c40EmitLines(c, "closing", nil, c40Sample(c, c40Pairs("closing", writers), 8), 1, varied)
+
+		return
+	}
+	// thorough: every pair at conn; at fresh / offer every entry point next to the initial exchange (both
+	// directions) as first group, the lines filled from the pairs with a non-getter; at conn2 every pair
+	// with a track writer; pairs next to Close; seeded triples
+	c40EmitLines(c, "conn", nil, c40Pairs("conn", core), 8, four)
+	c40EmitLines(c, "conn", nil, c40Pairs("conn", rest), 8, varied)
+	for _, s := range []string{"fresh", "offer"} {
+		c40EmitLines(c, s, withExchange(s, func(o *c40Op) bool { return o.Flags&fOnce == 0 }, true),
+			c40SampleSplit(c, c40Pairs(s, noExchange), 640, 100), 7, varied)
+	}
+	c40EmitLines(c, "conn2", nil, c40Pairs("conn2", track), 8, varied)
+	c40EmitLines(c, "closing", nil, c40Sample(c, c40Pairs("closing", writers), 200), 1, varied)
+	for _, s := range c40Setups {
+		trip := []c40Group{}
+		n := 100
+		if s == "closing" {
+			n = 40
+		}
+		for i := 0; i < n; i++ {
+			var ops []*c40Op
+			sig := false
+			for len(ops) < 3 {
+				o := &c40Ops[c.Rng.Intn(len(c40Ops))]
+				if !c40Allowed(o, s) || (sig && isSig(o)) {
+					continue
+				}
+				sig = sig || isSig(o)
+				ops = append(ops, o)
+			}
+			trip = append(trip, c40MkGroup(ops...))
+		}
+		per := 8
+		if s == "closing" {
+			per = 1
+		}
+		c40EmitLines(c, s, nil, trip, per, func() int { return 3 + c.Rng.Intn(2) })
+	}
+}
+
+func isExchange(o *c40Op) bool { return o.Name == "sig.Exchange" || o.Name == "sig.ExchangeFromPeer" }
+
+func init() {
+	registry["C40"] = &Prop{
+		Workers: 16, // each worker only waits for the process it spawned for its op line
+		Timeout: c40LineTimeout + time.Minute,
+		Rule: fmt.Sprintf("(a) `conc`: seeded random programs, 4–12 goroutines × 20–120 calls from the property's list next to three "+
+			"serialized offer/answer rounds. (b) `par`: table-driven concurrent groups over %d public entry points of "+
+			"PeerConnection, local tracks, RTPSender, RTPReceiver/TrackRemote, RTPTransceiver, DataChannel, SCTP/DTLS/ICE "+
+			"transports and the gatherer (c40Ops, one line per entry point): a fixture is brought to fresh / have-local-offer / "+
+			"connected with media flowing / connected with the local tracks bound to two PeerConnections / closing, then each "+
+			"group (pair or triple of entry points; at most one signaling call per group) is run by 2–4 goroutines released by a "+
+			"barrier, each repeating its call 4–12 times. Quick: every pair of the property's own calls and every self-pair on "+
+			"the connected fixture with 4 goroutines (X‖Y‖X‖Y); every listed call next to the INITIAL offer/answer exchange "+
+			"(first group of a fresh line); the track writers against each other on tracks bound to two PeerConnections; a "+
+			"seeded sample of the remaining pairs at all setup points. Thorough: every pair at conn; at fresh/offer every entry "+
+			"point next to the initial exchange in both directions + 740 other pairs each; every pair with a track writer at "+
+			"conn2; 200 pairs next to Close; 440 "+
+			"triples. Executed from a -race build, one op line at a time per process; a race report (key = the two racing "+
+			"functions), a watchdog verdict (all calling goroutines blocked with unchanged stacks and nobody working, looked at from 40 s on; hard limit 4 min per group) or a Close that does not return is a failing input. Non-trivial: "+
+			"the scenario ran (not inconclusive/err).", len(c40Ops)),
+		Gen: c40Gen,
+		Exec: func(a []string) string {
+			if os.Getenv("WVH_C40_DRY") != "" { // generator statistics only
+				return "ok"
+			}
+			if os.Getenv("WVH_C40_CHILD") == "" {
+				return c40Spawn(a)
+			}
+			before := raceLogSize()
+			c40CurrentArgs = a
+			switch {
+			case len(a) == 4 && a[0] == "conc":
+				seed, e1 := strconv.ParseInt(a[1], 10, 64)
+				ng, e2 := strconv.Atoi(a[2])
+				nc, e3 := strconv.Atoi(a[3])
+				if e1 != nil || e2 != nil || e3 != nil {
+					return "bad-op"
+				}
+
+				return c40Verdict(a, c40Run(seed, ng, nc), before)
+			case len(a) >= 6 && a[0] == "par":
+				res := c40Par(a)
+				if res == "bad-op" {
+					return res
+				}
+
+				return c40Verdict(a, res, before)
+			}
+
+			return "bad-op"
 		},
-		Class: func(a []string, out string) string { return strings.Fields(out + " ?")[0] },
+		Class: func(a []string, out string) string {
+			cl := strings.Fields(out + " ?")[0]
+			if len(a) > 1 && a[0] == "par" {
+				return "par/" + a[1] + ":" + cl
+			}
+
+			return a[0] + ":" + cl
+		},
+		Trivial: func(_ []string, out string) bool {
+			return strings.HasPrefix(out, "inconclusive") || strings.HasPrefix(out, "err:") || out == "bad-op"
+		},
 	}
 }
